@@ -1412,6 +1412,7 @@ func (e *clientEngine) startTx3(tk *verifrt.Task, kind cTxKind, reuse *cTx, prot
 	// caller-side buffer reuse: the message belongs to the caller again
 	if r.Pct(40, "scribble") {
 		e.stats["fault_caller_scribble"]++
+		verifrt.WS(m.Raw, hsCaller) // the caller writes its own buffer: a library that still reads it races with this
 		for i := range m.Raw {
 			m.Raw[i] ^= 0xA5
 		}
